@@ -85,6 +85,19 @@ CHECK_TEXT["C13"] = {
     "technique": "contract-based deductive verification: Verus (Z3) on mechanically extracted impls + Kani full-domain harnesses; bounded run for unordered collections",
 }
 
+CHECK_TEXT["C09"] = {
+    "text": ("Proof of the replay kernel of the key-to-set cache only, on the real function bodies (extracted every run): the staging log's order keeps the "
+             "oldest operation on top; apply_message_to_heap keeps every appended operation and a flush removes EXACTLY the operations of flushed epochs "
+             "(multiset equality with the filter epoch > e: no unflushed operation is ever dropped); replay computes, for every element, what its LAST "
+             "operation in issue order says; lemma: overlaying that snapshot on any base set equals applying all operations in issue order (idempotent over an "
+             "already flushed prefix). These contracts did not hold on the original tree (finding F2, fixed). Everything else of the property -- the wide-column "
+             "caches, eviction, single-flight, flush races -- is exercised only by a bounded run on the real code."),
+    "design_ref": "DESIGN.md section 5 (C09), section 7 (F2)",
+    "note": ("Partial claim. Read-your-writes of the three cached maps as a whole is a concurrent property and is NOT proved; the bounded run samples histories "
+             "with an uncontrolled background writer."),
+    "technique": "contract-based deductive verification (Verus, multiset / fold specifications) of the staging-log kernel; bounded differential run for the rest",
+}
+
 NOT_APPLICABLE = {
     "C01": "whole-history property of an async, concurrent engine; no sequential function's contract implies it and neither Verus nor Kani ingests async/tokio/scc code (DESIGN 1, 5)",
     "C02": "quantifies over schedules / single-flight / termination: concurrency and liveness are outside both verifiers (Kani has no threads; Verus would need the code rewritten onto its permission types)",
@@ -99,5 +112,4 @@ NOT_APPLICABLE = {
 
 # claimed in DESIGN.md but the check is not built yet (kept out of `checks` until it runs green)
 PENDING = {
-    "C09": "check under construction (DESIGN 5: staging-replay kernel); not claimed until it runs",
 }
